@@ -75,22 +75,30 @@ PA = 'contracts/parameter.c'
 RD = 'contracts/readers.c'
 _RD_SERVES = ['C02', 'C12', 'C13', 'C16', 'C18', 'C10']
 
+ST = 'contracts/strings.c'
+
 UNITS = [
+    U('Group_read', RD, 'h_Group_read', ['Group__read/contract_Group__read'], ['C01', 'C02', 'C04', 'C13', 'C16', 'C17', 'C10', 'C18'],
+      replace=['c3d__readString/contract_c3d__readString', 'c3d__readUint/contract_c3d__readUint', 'c3d__readInt/contract_c3d__readInt',
+               'vf_string_assign/contract_vf_string_assign'], unwind=5, timeout=300, track_alloc=True,
+      props={'memsafe': ['C13', 'C16']}),
+    U('B_removeTrailingSpaces', ST, 'h_removeTrailingSpaces', ['ezc3d__removeTrailingSpaces/contract_ezc3d__removeTrailingSpaces'],
+      ['C11', 'C02', 'C13'], unwind=11, timeout=300, level='B', bound='strings of at most 8 characters'),
     U('readFile', RD, 'h_readFile', ['c3d__readFile/contract_c3d__readFile'], _RD_SERVES,
       replace=['vf_stream_read/contract_vf_stream_read'], unwind=5, timeout=300,
       props={'memsafe': ['C13', 'C16']}),
     U('readUint', RD, 'h_readUint', ['c3d__readUint/contract_c3d__readUint'], _RD_SERVES + ['C17'],
       replace=['c3d__readFile/contract_c3d__readFile', 'c3d__hex2uint/contract_c3d__hex2uint'], unwind=5, timeout=300,
-      props={'memsafe': ['C13', 'C16']}),
+      track_alloc=True, props={'memsafe': ['C13', 'C16']}),
     U('readInt', RD, 'h_readInt', ['c3d__readInt/contract_c3d__readInt'], _RD_SERVES + ['C17'],
       replace=['c3d__readFile/contract_c3d__readFile', 'c3d__hex2int/contract_c3d__hex2int'], unwind=5, timeout=300,
-      props={'memsafe': ['C13', 'C16']}),
+      track_alloc=True, props={'memsafe': ['C13', 'C16']}),
     U('readFloat', RD, 'h_readFloat', ['c3d__readFloat/contract_c3d__readFloat'], _RD_SERVES + ['C01'],
       replace=['c3d__readFile/contract_c3d__readFile'], unwind=5, timeout=300, props={'memsafe': ['C13', 'C16']}),
     U('readString', RD, 'h_readString', ['c3d__readString/contract_c3d__readString'], _RD_SERVES + ['C04', 'C17'],
       replace=['c3d__readFile/contract_c3d__readFile', 'vf_string_ctor_cstr/contract_vf_string_ctor_cstr',
                'vf_string_ctor_copy/contract_vf_string_ctor_copy'], unwind=5, timeout=300,
-      props={'memsafe': ['C13', 'C16']}),
+      track_alloc=True, props={'memsafe': ['C13', 'C16']}),
 ] + [U('isDimensionConsistent_%d' % k, PA, 'h_isDimensionConsistent',
          ['Parameter__isDimensionConsistent/contract_Parameter__isDimensionConsistent'], ['C09', 'C10', 'C13', 'C18', 'C19'],
          unwind=9, timeout=300, level='PB', bound='at most 7 dimensions of at most 255 entries (format capacity); one query per '
@@ -117,7 +125,8 @@ UNITS = [
 ] + [U('Data_frame_' + c, DA, 'h_Data_frame_' + c, ['Data__frame__Frame_sz/contract_Data__frame__Frame_sz'],
          ['C06', 'C08', 'C10', 'C13', 'C18'],
          replace=['vf_vec_Frame_push_back/contract_vf_vec_Frame_push_back', 'vf_vec_Frame_resize/contract_vf_vec_Frame_resize',
-                  'Frame__add__Frame/contract_own_Frame__add__Frame'],
+                  'vf_vec_Frame_resize_fill/contract_vf_vec_Frame_resize_fill', 'Frame__add__Frame/contract_own_Frame__add__Frame',
+                  'Frame__ctor/contract_Frame__ctor_fresh'],
          unwind=5, timeout=600, level='PB', bound='at most 100000 stored frames (the format holds 65535)',
          assumes=['contracts of vf_vec_Frame_push_back / vf_vec_Frame_resize (std::vector<Frame> growth: handles of '
                   'existing frames kept, new frames default-constructed) are assumed'])
